@@ -157,6 +157,10 @@ func (c *Ctx) checkIdSpellings() {
 			if a.Op == token.ILLEGAL && calleeFullName(a.Val) == "strings.HasPrefix" {
 				return true, true
 			}
+			// rest, found := strings.CutPrefix(s, "usr")
+			if ex, ok := a.Val.(*ssa.Extract); ok && a.Op == token.ILLEGAL && ex.Index == 1 && calleeFullName(ex.Tuple) == "strings.CutPrefix" {
+				return true, true
+			}
 			return false, false
 		}}
 		ok2, cnt := core.GuardedBy(pu, outer, g)
